@@ -44,7 +44,7 @@ FMT = dict(
 
 def plan(tier, seed):
 	nsh = 16 if tier == 'quick' else 64
-	return [('t_files', dict(tier=tier, shard=s, nshards=nsh)) for s in range(nsh)] + [('t_default_spec', dict()), ('t_histories', dict(depth=3 if tier == 'quick' else 4))] + [('t_big', dict(which=w)) for w in range(3)] + [('t_tiny', dict())]
+	return [('t_files', dict(tier=tier, shard=s, nshards=nsh)) for s in range(nsh)] + [('t_default_spec', dict()), ('t_histories', dict(depth=3 if tier == 'quick' else 4))] + [('t_big', dict(which=w)) for w in range(3)] + [('t_tiny', dict()), ('t_similar_contigs', dict())]
 
 
 def render(contigs, orient, fmt):
@@ -167,6 +167,43 @@ def t_files(tier, shard, nshards):
 						sh.count('variants_with_reverse_complemented_contig')
 					sh.outcome(exp)
 	sh.sample(dict(family='files', subset=list(subset), order=list(order), orient=list(orient), fmt=fmt, signature=exp))
+	return sh
+
+
+def t_similar_contigs():
+	"""Genomes whose contigs resemble each other: equal length, identical first and last E letters (repeat copies, SNP variants, rRNA operons),
+	identical titles, exact duplicates next to near-duplicates.  No contig may be taken for another: the signature is the union over ALL of them."""
+	sh = Shard()
+	ks = fixtures.kspec(K, PREFIX)
+	mids = ['ATCGCA' + 'GG' * 7, 'ATGGTT' + 'CC' * 7, 'CC' * 7 + 'ATTTGA', 'GGGGGGCCCCCCGGGGGGCC']      # 20-letter middles holding different k-mers (the last: none)
+	with fixtures.workdir('c06s') as d:
+		for E in (1, 8, 63, 64, 65, 100):
+			end = ('GC' * E)[:E]
+			contigs = [end + m + end for m in mids]
+			for sel in itertools.chain(itertools.permutations(range(len(mids)), 2), itertools.permutations(range(len(mids)), 3), [(0, 0, 1), (1, 0, 0), (2, 2)]):
+				for titles in ('distinct', 'identical'):
+					exp = sorted(set().union(*[set(R.ref_signature(K, PREFIX.encode(), [contigs[i].encode()])) for i in sel]))
+					lines = []
+					for j, i in enumerate(sel):
+						lines.append('>contig' + ('' if titles == 'identical' else str(j)) + ' repeat copy')
+						lines.extend(contigs[i][x:x + 60] for x in range(0, len(contigs[i]), 60))
+					p = os.path.join(d, 'similar.fasta')
+					with open(p, 'wb') as f:
+						f.write(('\n'.join(lines) + '\n').encode())
+					os.utime(p, ns=(FIXED_NS, FIXED_NS))
+					sh.evals += 1
+					case = dict(subset='similar-contigs', order=list(sel), orient=[], fmt=dict(shared_end_length=E, titles=titles), k=K, prefix=PREFIX)
+					try:
+						got = sig_of(p, ks)
+					except Exception as e:
+						sh.violation('parse-failed', case, exp, repr(e))
+						continue
+					if got.tolist() != exp:
+						sh.violation('not-union-of-contig-signatures', case, exp, got.tolist())
+					else:
+						sh.nontrivial += 1
+	sh.count('genomes_of_similar_contigs', sh.evals)
+	sh.sample(dict(family='similar-contigs', shared_end_lengths=[1, 8, 63, 64, 65, 100]))
 	return sh
 
 
@@ -358,6 +395,8 @@ def replay(case, kind=None):
 		return [v for v in t_big(case['which']).violations if v['case']['fmt'] == case['fmt']][:1]
 	if case['subset'] == 'history':
 		return [v for v in t_histories(len(case['history']), only=case['history']).violations if v['case']['k'] == case['k']][:1]
+	if case['subset'] == 'similar-contigs':
+		return [v for v in t_similar_contigs().violations if v['case'] == case][:1]
 	if case['subset'] == 'tiny':
 		return [v for v in t_tiny().violations if v['case']['fmt'] == case['fmt']][:1]
 	if case['subset'] == 'default-spec':
